@@ -453,7 +453,9 @@ pub fn main(seed: u64, tier: &str, only: Option<&str>) {
         g.customs = case % 2 == 1;
         g.junk_debug = false;
         g.producers = false;
-        g.names = false;
+        // a third of the inputs carry a name section: the parse-time map is handed to `on_parse` after
+        // the name section has been applied, and has to be as complete then as without one
+        g.names = case % 3 == 1;
         let (wasm, _) = gen::gen_valid(&mut rng, &g);
         let wasm = add_tracers(&wasm);
         run_wasm(&format!("k{}", case), &wasm, case % 3 == 2, &mut stats);
